@@ -190,7 +190,7 @@ PROPS = {
         "level_note": "Trusted: Coq kernel, extraction, driver, harness, synctest. Partial: interleavings inside a quiescence interval are validated through their outcome; the second-address-on-repeat-ADD finding (known finding) is a Manager-level behaviour outside the per-interface theorem.",
     },
     "C06": {
-        "pkg": "./pool/", "test": "TestVerif_Pool", "n_quick": 400, "n_thorough": 16000, "retry_mismatch": True, "env": {"VERIF_PROP": "C06"},
+        "pkg": "./pool/", "test": "TestVerif_Pool", "n_quick": 400, "n_thorough": 20000, "retry_mismatch": True, "env": {"VERIF_PROP": "C06"},
         "rule": "as C01 with a fault-free cloud, frequent balancer passes, pools near cap, min>max and max=0 configurations; every cloud call is judged at call time against the observer's ledger "
                 "(addresses the cloud has on the interface + asked <= cap; interfaces <= slots; no unassign of a held or primary address; no delete of an interface with a held address, a waiting request, or of trunk/erdma type; "
                 "Dispose marks only addresses nobody holds). non-trivial = at least one unassign or delete call was made; distinct = distinct input vectors",
@@ -861,7 +861,9 @@ def sig_C05(ins, outs, extra=""):
                     # every address claimed twice has a claimant whose DEL released it and left the record
                     by_addr = {}
                     for pod, c in claims.items():
-                        by_addr.setdefault(c, []).append(pod)
+                        for fam, a in ((4, c[1]), (6, c[2])):
+                            if a:
+                                by_addr.setdefault((c[0], fam, a), []).append(pod)
                     dup = [pods for pods in by_addr.values() if len(pods) > 1]
                     if dup and all(any(q in released for q in pods) for pods in dup):
                         return "C05:restart:acknowledged-allocation-lost-to-stale-record-of-unfinished-DEL"
@@ -947,6 +949,16 @@ def sig_C08(ins, outs, extra=""):
             return "C08:fixed-point:dual-stack:idle-primary-IPv4-addresses-count-for-the-max-band-and-trim-the-IPv6-refill"
         if churn:
             return "C08:fixed-point:idle-addresses-spread-over-interfaces:refill-subtracts-them-interface-by-interface-trim-counts-them-all"
+    if _ipam_kind(ins) == 4 and code == 806:
+        # an ERDMA node whose tail keeps assigning and unassigning on the RDMA interface (the known churn): addIP serves one
+        # interface per round, equal address counts are ordered by Go's map order, so the churning interface can take the
+        # round from the interface an ordinary pod waits for, several rounds in a row
+        c = _ipam_hist_cfg(ins)
+        ps = _ipam_passes(outs)
+        at = ps[idx] if 0 <= idx < len(ps) else {"calls": []}
+        kinds = sorted({call[0] for call in at["calls"]})
+        if c.get("rdma") and c.get("fr", 0) > 0 and kinds and set(kinds) <= {3, 4, 5, 6}:
+            return "C08:fixed-point:erdma-node:idle-address-of-the-RDMA-interface-counts-for-the-max-band-but-not-for-the-min-refill"
     if _ipam_kind(ins) == 5 and code == 809:
         # the pool loop on a node without pods keeps calling the cloud although min <= max and nothing fails
         # (the model reproduces every round: c08_pool_churn_refuted is this behaviour as a theorem)
